@@ -558,7 +558,9 @@ class CallMixin:
                 else:
                     res = self.sym_for_spec('r_' + label.lstrip('.').split('.')[-1], rspec)
             if kind == 'logged':
-                st.log.append(Event(ext.get('label', label.lstrip('.')), recv, args, kwargs, res))
+                ev = Event(ext.get('label', label.lstrip('.')), recv, args, kwargs, res)
+                ev.heap = dict(st.heap)
+                st.log.append(ev)
             eff = ext.get('effect')
             if eff is not None:
                 eff(self, st, fr, recv, args, kwargs, res)
